@@ -1,7 +1,9 @@
 (* C05 Jacobians.  Proved: all three Jacobians are one column fill (jac_fill) over the joints on the path from the
    (movable reference of the) body to the base, and entries in columns of degrees of freedom that are not on that
    path are left untouched -- zero for a zero-initialised matrix; the point Jacobian is rows 3..5 of the 6-D one
-   column by column.  G(q) qdot = velocity and the derivative property are decided by the L3 oracle. *)
+   column by column.  G(q) qdot = velocity: the spatial Jacobian times qdot is the body velocity of the velocity
+   recursion, and both point Jacobians times qdot are what CalcPointVelocity6D / CalcPointVelocity return (movable
+   bodies; any two incoming workspaces).  The derivative reading is decided by the L3 oracle (jets). *)
 From Coq Require Import List NArith.
 From RV Require Import Scalar Laws LinAlg3 Spatial ListArr LinDef ModelDef JointDef KinDef C14Thm WsLemmas KinThm C04Thm JacThm JacThm2 JacThm3.
 Import ListNotations.
@@ -47,8 +49,29 @@ Section Q.
     (id < fixed_disc)%N -> 0 < N.to_nat id < nbodies M ->
     mvmul O (body_spatial_jacobian O M (ukc_q O M w0 q) id (mzeros (o0 O) 6 (dof_count M))) qd = svlist (vF O M q qd (N.to_nat id)).
   Proof. intros W C Lq Jw G. exact (spatial_jacobian_times_qd O M q W C qd Lq Jw w0 G id). Qed.
+  (* ... and the point Jacobians times qdot are the results of CalcPointVelocity6D / CalcPointVelocity, whatever the
+     two incoming workspaces hold *)
+  Theorem C05_point_jacobian6_times_qdot_is_point_velocity (M : @Model T) q qd (w0 w1 : @WS T) (id : N) (p : V3 T) :
+    WF M ->
+    (forall i j, 0 < i < nbodies M -> 0 < j < nbodies M -> i <> j ->
+       is_custom (jkind (getJ M i)) = true -> is_custom (jkind (getJ M j)) = true -> jcust (getJ M i) <> jcust (getJ M j)) ->
+    length qd = dof_count M -> (forall i, 0 < i < nbodies M -> joint_wf O M q i) -> Good O M w0 -> Good O M w1 ->
+    (id < fixed_disc)%N -> 0 < N.to_nat id < nbodies M ->
+    mvmul O (point_jacobian6 O M (ukc_q O M w0 q) id p (mzeros (o0 O) 6 (dof_count M))) qd =
+    svlist (snd (calc_point_velocity6 O M w1 q qd id p true)).
+  Proof. intros W C Lq Jw. exact (point_jacobian6_is_point_velocity O M q W C qd Lq Jw w0 w1 id p). Qed.
+  Theorem C05_point_jacobian_times_qdot_is_point_velocity (M : @Model T) q qd (w0 w1 : @WS T) (id : N) (p : V3 T) :
+    WF M ->
+    (forall i j, 0 < i < nbodies M -> 0 < j < nbodies M -> i <> j ->
+       is_custom (jkind (getJ M i)) = true -> is_custom (jkind (getJ M j)) = true -> jcust (getJ M i) <> jcust (getJ M j)) ->
+    length qd = dof_count M -> (forall i, 0 < i < nbodies M -> joint_wf O M q i) -> Good O M w0 -> Good O M w1 ->
+    (id < fixed_disc)%N -> 0 < N.to_nat id < nbodies M ->
+    mvmul O (point_jacobian O M (ukc_q O M w0 q) id p (mzeros (o0 O) 3 (dof_count M))) qd =
+    v3list (snd (calc_point_velocity O M w1 q qd id p true)).
+  Proof. intros W C Lq Jw. exact (point_jacobian_is_point_velocity O M q W C qd Lq Jw w0 w1 id p). Qed.
 End Q.
 Print Assumptions C05_point_jacobian_off_path_zero. Print Assumptions C05_point_jacobian6_off_path_zero.
 Print Assumptions C05_body_spatial_jacobian_off_path_zero. Print Assumptions C05_fill_leaves_other_columns.
 Print Assumptions C05_point_jacobian_is_linear_part_of_6D.
 Print Assumptions C05_spatial_jacobian_times_qdot_is_body_velocity.
+Print Assumptions C05_point_jacobian6_times_qdot_is_point_velocity. Print Assumptions C05_point_jacobian_times_qdot_is_point_velocity.
